@@ -718,6 +718,12 @@ func (a *Analysis) Edges() []Edge {
 					continue
 				}
 				if s.Op == OpLock || s.Op == OpRLock {
+					if a.freshReceiver(ci.Common().Args[0], ci) {
+						// the mutex belongs to an object created inside this function (or by a
+						// constructor it called) that no other goroutine can reach yet: the
+						// acquisition cannot block, so it orders nothing
+						continue
+					}
 					for _, h := range heldNow {
 						add(Edge{From: h.Class, FromRead: h.Read, To: s.Class, ToRead: s.Op == OpRLock, Fn: fn, At: ci})
 					}
@@ -844,4 +850,89 @@ func (ff *FnFacts) ExitHeldList() []struct {
 	}
 	sort.Slice(out, func(i, j int) bool { return out[i].Class.Name < out[j].Class.Name })
 	return out
+}
+
+// freshReceiver: the mutex address is a field of (or is loaded from a field
+// of) an object that was allocated in this function or returned by a static
+// callee all of whose returns hand out a new allocation.
+func (a *Analysis) freshReceiver(v ssa.Value, at ssa.Instruction) bool {
+	var base ssa.Value
+	switch x := v.(type) {
+	case *ssa.FieldAddr:
+		base = x.X
+	case *ssa.UnOp:
+		if fa, ok := x.X.(*ssa.FieldAddr); ok {
+			base = fa.X
+		}
+	}
+	if base == nil {
+		return false
+	}
+	if !a.isFreshValue(base, 0) {
+		return false
+	}
+	// not yet published: no use before the acquisition that could make the object reachable by another goroutine
+	if refs := base.Referrers(); refs != nil {
+		for _, u := range *refs {
+			if u == at || !core.InstrDominates(u, at) {
+				continue
+			}
+			switch x := u.(type) {
+			case *ssa.FieldAddr, *ssa.DebugRef:
+			case *ssa.Store:
+				if x.Val == base {
+					if _, local := x.Addr.(*ssa.Alloc); !local {
+						return false
+					}
+				}
+			case *ssa.BinOp, *ssa.If, *ssa.UnOp:
+			default:
+				return false // call argument, map update, send, closure capture, return ...
+			}
+		}
+	}
+	return true
+}
+
+func (a *Analysis) isFreshValue(v ssa.Value, depth int) bool {
+	if depth > 3 {
+		return false
+	}
+	switch x := v.(type) {
+	case *ssa.Alloc:
+		return true
+	case *ssa.Extract:
+		if call, ok := x.Tuple.(*ssa.Call); ok {
+			return a.returnsFresh(call, x.Index, depth)
+		}
+	case *ssa.Call:
+		return a.returnsFresh(x, 0, depth)
+	}
+	return false
+}
+
+func (a *Analysis) returnsFresh(call *ssa.Call, idx int, depth int) bool {
+	callee := call.Call.StaticCallee()
+	if callee == nil || callee.Blocks == nil {
+		return false
+	}
+	rets := core.Returns(callee)
+	if len(rets) == 0 {
+		return false
+	}
+	some := false
+	for _, ret := range rets {
+		if idx >= len(ret.Results) {
+			return false
+		}
+		rv := core.RetResult(ret, idx)
+		if core.IsNilConst(rv) {
+			continue
+		}
+		if !a.isFreshValue(rv, depth+1) {
+			return false
+		}
+		some = true
+	}
+	return some
 }
